@@ -73,7 +73,12 @@ class Models:
 
     def str_repeat(self, eng, a, b, st):
         # ' ' * n : a string of n copies; modelled by an uninterpreted symbol
-        # with the facts the JSON proof needs (length, only that character)
+        # with the facts the JSON proof needs (only that character)
+        for p in self.plugins:
+            r = p.str_repeat(eng, a, b, st) if hasattr(
+                p, 'str_repeat') else None
+            if r is not None:
+                return r
         raise Unsupported('str * int')
 
     def tyset_union(self, eng, a, b, st):
@@ -88,6 +93,11 @@ class Models:
         return None
 
     def obj_attr(self, eng, v, name, st):
+        for p in self.plugins:
+            r = p.obj_attr(eng, v, name, st) if hasattr(
+                p, 'obj_attr') else None
+            if r is not None:
+                return r
         return None
 
     def class_attr(self, eng, v, name, st):
@@ -126,6 +136,25 @@ class Models:
         return None
 
     def setitem(self, eng, base_expr, base, idx, v, st, node):
+        if isinstance(base, VSeq) and isinstance(idx, VInt):
+            k, t = eng.elem_term(v, st)
+            if k != base.elem:
+                raise Unsupported('store of %s into Seq[%s]' % (k, base.elem),
+                                  node)
+            n = seq_len(base.t)
+            outs = []
+            for s2, inb in eng.branch(st, z3.And(idx.t >= 0, idx.t < n)):
+                if inb:
+                    new = VSeq(seq_update(base.t, idx.t, t), base.elem)
+                    outs.extend(eng.assign(self._as_store(base_expr), new,
+                                           s2))
+                else:
+                    if s2.fork().assume(idx.t < 0).feasible():
+                        raise Unsupported('possibly negative index store',
+                                          node)
+                    outs.append((s2, EXC, VExc('IndexError', (),
+                                               getattr(node, 'lineno', 0))))
+            return outs
         if isinstance(base, VDictC) and isinstance(base_expr, ast.Name):
             for i, (k, _) in enumerate(base.entries):
                 c = eng.v_eq(idx, k, st)
@@ -740,6 +769,20 @@ class Models:
                     if not z3.is_false(c):
                         raise Unsupported('list.remove symbolic', node)
                 return [(st, Raise(VExc('ValueError', (), line)))]
+        if isinstance(recv, VSeq) and name == 'pop' and not args:
+            out = []
+            n = seq_len(recv.t)
+            for s2, nonempty in eng.branch(st, n > 0):
+                if nonempty:
+                    last = eng.wrap_elem(seq_nth(recv.t, n - 1), recv.elem)
+                    new = VSeq(z3.SubSeq(recv.t, z3.IntVal(0), n - 1),
+                               recv.elem)
+                    for (s3, v) in self.store_back(eng, target, new, s2,
+                                                   node):
+                        out.append((s3, v if isinstance(v, Raise) else last))
+                else:
+                    out.append((s2, Raise(VExc('IndexError', (), line))))
+            return out
         if isinstance(recv, VSeq):
             if name == 'append':
                 k, t = eng.elem_term(args[0], st)
@@ -1200,6 +1243,8 @@ class Models:
             return VSeq(so.EMPTY_NODES, 'node')
         if name == 'empty_pairs':
             return VSeq(so.EMPTY_PAIRS, 'pair')
+        if name == 'empty_strs':
+            return VSeq(z3.Empty(so.StrSeq), 'str')
         if name == 'seq_update':
             sq = eng.to_seq(args[0], st)
             k, t = eng.elem_term(args[2], st)
